@@ -841,6 +841,81 @@ func keyInstallers(p *loadedPkg) []keyInstaller {
 	return out
 }
 
+// storePurge describes how SessionCache.Store guards its purge of the command
+// mappings that point at the stored id: whether there is such a purge (a delete on
+// commandMap inside Store), and whether the guarding condition(s) consult the
+// PRESENCE of an old entry (comma-ok map read, len, nil test of the old value)
+// rather than only its identity against the stored entry.
+type storePurge struct{ present, presenceGuard, identityGuard bool }
+
+func storePurgeFact(p *loadedPkg) storePurge {
+	var out storePurge
+	for _, file := range p.Files {
+		for _, d := range file.Decls {
+			fd, ok := d.(*ast.FuncDecl)
+			if !ok || fd.Body == nil || funcKey(p, fd) != "security.SessionCache.Store" {
+				continue
+			}
+			par := map[ast.Node]ast.Node{}
+			var stack []ast.Node
+			ast.Inspect(fd.Body, func(n ast.Node) bool {
+				if n == nil {
+					stack = stack[:len(stack)-1]
+					return true
+				}
+				if len(stack) > 0 {
+					par[n] = stack[len(stack)-1]
+				}
+				stack = append(stack, n)
+				return true
+			})
+			ast.Inspect(fd.Body, func(n ast.Node) bool {
+				call, ok := n.(*ast.CallExpr)
+				if !ok {
+					return true
+				}
+				id, ok := call.Fun.(*ast.Ident)
+				if !ok || id.Name != "delete" || len(call.Args) == 0 || !strings.HasSuffix(exprText(call.Args[0]), ".commandMap") {
+					return true
+				}
+				out.present = true
+				// every enclosing if (other than the per-mapping `sessID == entry.id` test inside the range)
+				for q := par[ast.Node(call)]; q != nil; q = par[q] {
+					is, ok := q.(*ast.IfStmt)
+					if !ok {
+						continue
+					}
+					okNames := map[string]bool{}
+					if as, ok := is.Init.(*ast.AssignStmt); ok && len(as.Lhs) == 2 {
+						if nm, ok := as.Lhs[1].(*ast.Ident); ok {
+							okNames[nm.Name] = true // comma-ok presence flag
+						}
+					}
+					ast.Inspect(is.Cond, func(x ast.Node) bool {
+						switch v := x.(type) {
+						case *ast.Ident:
+							if okNames[v.Name] || v.Name == "nil" {
+								out.presenceGuard = true
+							}
+						case *ast.CallExpr:
+							if f, ok := v.Fun.(*ast.Ident); ok && f.Name == "len" {
+								out.presenceGuard = true
+							}
+						case *ast.BinaryExpr:
+							if v.Op == token.NEQ && (exprText(v.X) == "entry" || exprText(v.Y) == "entry") {
+								out.identityGuard = true
+							}
+						}
+						return true
+					})
+				}
+				return true
+			})
+		}
+	}
+	return out
+}
+
 // ---- broker stream I/O -----------------------------------------------------
 
 type brokerIO struct {
@@ -1078,6 +1153,8 @@ func factsC17(b *strings.Builder) error {
 		}
 		b.WriteString("].\n")
 	}
+	sp := storePurgeFact(sec)
+	fmt.Fprintf(b, "Definition store_purge : store_purge_fact := mk_sp %v %v %v.\n\n", sp.present, sp.presenceGuard, sp.identityGuard)
 	b.WriteString("Definition key_installers : list key_installer := [\n")
 	kis := keyInstallers(str)
 	for i, k := range kis {
